@@ -34,7 +34,7 @@ for k, l in [(1, 2), (2, 1), (2, 2)]:
                 desc="TreeRef::write_to Ok iff no NUL in names; bytes == size(); entry layout '<octal mode> SP name NUL id'",
                 inputs="%d entries, names %d bytes (all values), modes all u16, sorted by the real Ord" % (k, l), bound="unwind 24"))
 
-for k, l, tier in [(1, 1, "quick"), (1, 3, "thorough"), (2, 1, "thorough")]:
+for k, l, tier in [(1, 1, "quick"), (1, 3, "thorough")]:
     hs.append(H("c01::tree_roundtrip::c01_tree_roundtrip_k%d_l%d" % (k, l), tier=tier, timeout=1200, mem=10, covers=2, extra_args=STUB, thorough_timeout=2400,
                 desc="TreeRef::write_to -> TreeRefIter (fast_entry decoder): every entry comes back with the same mode, name and id, and nothing is left over",
                 inputs="%d entries, names %d bytes (all values but NUL), every mode the decoder accepts (040000 or bit 15 set), id all 20 bytes" % (k, l), bound="unwind 24"))
